@@ -368,15 +368,30 @@ def _out_of_active_range(sym, value: str) -> bool:
     """
     Return True if the int/hex/float symbol has an active range and 'value' (in sdkconfig notation) lies outside of it.
     """
+
+    def bound(expr, conv):
+        # A bound without a well-formed value (e.g. an option that currently has no value) counts as 0,
+        # like in Symbol.str_value and get_ranges()
+        try:
+            return conv(expr.str_value)
+        except ValueError:
+            return conv("0")
+
     for low_expr, high_expr, cond in sym.ranges:
         if kconfiglib.expr_value(cond):
-            try:
-                if sym.orig_type == kconfiglib.FLOAT:
-                    return not float(low_expr.str_value) <= float(value) <= float(high_expr.str_value)
+            if sym.orig_type == kconfiglib.FLOAT:
+                conv = float
+            else:
                 base = kconfiglib._TYPE_TO_BASE[sym.orig_type]
-                return not int(low_expr.str_value, base) <= int(value, base) <= int(high_expr.str_value, base)
+
+                def conv(s, base=base):
+                    return int(s, base)
+
+            try:
+                val = conv(value)
             except ValueError:
-                return False
+                return False  # malformed values are rejected by set_value() itself
+            return not bound(low_expr, conv) <= val <= bound(high_expr, conv)
     return False
 
 
